@@ -151,6 +151,7 @@ func runC06(c *Ctx) {
 	c.St.Rule = "programs of object operations over a heap of objects/lists with keys from a pool (empty, '.', '#', quotes, non-ASCII, repeated within one Set); non-trivial = at least 3 operations; distinct by program"
 	c.nilArguments()
 	c.rawBytes("C06")
+	c.lateDerived("C06")
 	// queries with Go values that no stored element can be identical to: a value of another numeric Go type is not
 	// the int / float64 the container holds (Contains false, KeyOf panics), whatever its numeric value
 	m.Case("foreign-queries")
@@ -316,6 +317,7 @@ func runC08(c *Ctx) {
 	}
 	c.derivedCorners("C08")
 	c.rawBytes("C08")
+	c.cloneSequences()
 	c.growShrink()
 	c.sharedBoxes()
 	for i := 0; i < c.N(400, 6000); i++ {
@@ -633,6 +635,7 @@ func (c *Ctx) deepChains() {
 func runC09(c *Ctx) {
 	m, r := c.M, c.R
 	c.St.Rule = "receivers in every growth history x every deriving operation applied twice x every mutator applied to receiver, argument and both results in turn, all containers snapshotted after each step; non-trivial always (>= 6 operations); distinct by (history, deriving op, mutator)"
+	c.reentrant("C09")
 	c.nilArguments()
 	c.rawBytes("C09")
 	c.emptyReceivers()
@@ -975,6 +978,7 @@ func runC13(c *Ctx) {
 	c.omoList("C13")
 	c.omoObj("C13")
 	c.derivedCorners("C13")
+	c.lateDerived("C13")
 	c.rawBytes("C13")
 	c.nativeAfterDerivations()
 	c.longLists("C13")
@@ -1208,6 +1212,8 @@ func runC14(c *Ctx) {
 	c.omoObj("C14")
 	c.longLists("C14")
 	c.derivedCorners("C14")
+	c.lateDerived("C14")
+	c.reentrant("C14")
 	// a callback whose result cannot be stored: every Map variant panics (nothing is silently left out), the source stays
 	m.Case("unstorable-results")
 	{
@@ -1522,6 +1528,7 @@ func runC19(c *Ctx) {
 	}
 	c.fluentStates()
 	c.derivedCorners("C19")
+	c.lateDerived("C19")
 	c.overriding("C19")
 	c.longLists("C19")
 	for lvl := 1; lvl <= 2; lvl++ {
@@ -1636,5 +1643,80 @@ func runC19(c *Ctx) {
 			m.OGetTF(holderO, ".n.m")
 			c.St.Eval(fmt.Sprintf("fluent:%d:%d", lvl, rep), true)
 		}
+	}
+}
+
+
+// cloneSequences: non-finite floats (a clone Equals its source as long as no NaN is involved: +Inf == +Inf), and
+// clones taken at several moments of one container's life — whatever an earlier Clone learnt about the container
+// (it was flat, it was empty, it had spare capacity) is no longer true after the next write.
+func (c *Ctx) cloneSequences() {
+	m := c.M
+	m.Case("clone-non-finite")
+	inf, ninf := gvFloat(math.Inf(1)), gvFloat(math.Inf(-1))
+	l := m.NewList(inf, ninf, gvFloat(1.5), gvFloat(math.MaxFloat64), gvFloat(math.SmallestNonzeroFloat64), gvFloat(math.Copysign(0, -1)), m.RefGV(m.NewObject(gvStr("x"), inf, gvStr("y"), ninf)))
+	cl := m.Clone(l)
+	m.Equals(l, cl)
+	m.Equals(cl, l)
+	m.Equals(l, l)
+	o := m.NewObject(gvStr("i"), inf, gvStr("l"), m.RefGV(m.NewList(ninf, inf)))
+	co := m.OClone(o)
+	m.OEquals(o, co)
+	m.OEquals(co, o)
+	m.Equals(m.NewList(inf), m.NewList(ninf))
+	m.Equals(m.NewList(inf), m.NewList(gvFloat(math.MaxFloat64)))
+
+	m.Case("clone-sequences")
+	for _, how := range []string{"native-slice", "native-map", "list", "object", "settf", "nested-native"} {
+		// an object of scalars only is cloned, then receives its first nested container, then is cloned again
+		src := m.NewObject(gvStr("a"), gvInt(1), gvStr("s"), gvStr("v"), gvStr("f"), gvFloat(2.5), gvStr("n"), gvNil())
+		m.OClone(src)
+		switch how {
+		case "native-slice":
+			m.OSet(src, gvStr("c"), &GV{K: '(', Fl: 'a', Xs: []*GV{gvInt(1), gvInt(2)}})
+		case "native-map":
+			m.OSet(src, gvStr("c"), &GV{K: '<', Fl: 'a', Xs: []*GV{gvInt(1)}, Keys: []string{"k"}})
+		case "list":
+			m.OSet(src, gvStr("c"), m.RefGV(m.NewList(gvInt(1))))
+		case "object":
+			m.OSet(src, gvStr("c"), m.RefGV(m.NewObject(gvStr("k"), gvInt(1))))
+		case "settf":
+			m.OSetTF(src, ".c#1", gvInt(5))
+		case "nested-native":
+			m.OSet(src, gvStr("c"), &GV{K: '(', Fl: 'i', Xs: []*GV{gvInt(1)}})
+		}
+		c2 := m.OClone(src)
+		// a write below the new field on either side must not show on the other
+		m.OSetTF(src, ".c#0", gvStr("src-side"))
+		if c2 != "" {
+			m.OSetTF(c2, ".c#0", gvStr("clone-side"))
+			if how == "native-map" || how == "object" {
+				m.OSetTF(c2, ".c.k", gvStr("clone-side"))
+				m.OSetTF(src, ".c.k", gvStr("src-side"))
+			}
+			m.OEquals(src, c2)
+		}
+		// the same on a list of scalars
+		ls := m.NewList(gvInt(1), gvStr("v"))
+		m.Clone(ls)
+		m.Add(ls, &GV{K: '(', Fl: 'a', Xs: []*GV{gvInt(1)}})
+		c3 := m.Clone(ls)
+		m.SetTF(ls, "#2#0", gvStr("src-side"))
+		if c3 != "" {
+			m.SetTF(c3, "#2#0", gvStr("clone-side"))
+		}
+		// a list emptied and cloned, then both sides grow
+		e := m.NewList(gvInt(1), gvInt(2), gvInt(3))
+		m.Pop(e)
+		m.Delete(e, 0)
+		m.Pop(e)
+		ce := m.Clone(e)
+		m.Add(e, gvStr("src"))
+		if ce != "" {
+			m.Add(ce, gvStr("clone"))
+			m.Add(ce, gvStr("clone2"))
+		}
+		m.Add(e, gvStr("src2"))
+		c.St.Eval("clone-sequences:"+how, true)
 	}
 }
